@@ -4,6 +4,7 @@ import logging
 import os
 
 from batchie import log_config, plotting
+from batchie.cli.argument_parsing import get_prng_from_seed_argument
 from batchie.core import ThetaHolder
 from batchie.data import Screen
 from batchie.models.main import ModelEvaluation, correlation_matrix
@@ -80,12 +81,16 @@ def main():
 
     logger.info("Creating plots")
 
+    rng = get_prng_from_seed_argument(args)
+
     plotting.plot_correlation_heatmap(
         corr, os.path.join(args.output_dir, "sample_prediction_correlation.pdf")
     )
 
     plotting.predicted_vs_observed_scatterplot(
-        me, os.path.join(args.output_dir, "predicted_vs_observed_scatterplot.pdf")
+        me,
+        os.path.join(args.output_dir, "predicted_vs_observed_scatterplot.pdf"),
+        rng=rng,
     )
 
     plotting.predicted_vs_observed_scatterplot_per_sample(
@@ -93,6 +98,7 @@ def main():
         os.path.join(
             args.output_dir, "predicted_vs_observed_by_sample_scatterplot.pdf"
         ),
+        rng=rng,
     )
 
     plotting.per_sample_violin_plot(
